@@ -1,6 +1,7 @@
 //! pvh: drives the real pearl library from a scenario script and prints one canonical observation
 //! line per script line (DESIGN.md appendix B).  Built with `--cfg pearl_verif`.
 
+mod bloomproto;
 mod exec;
 mod util;
 
